@@ -289,3 +289,78 @@ func vhHalf(v float64) int {
 	}
 	return 0
 }
+
+
+// VH_C16_invalid: one invalid operation, of any documented kind and at any
+// position of a batch, makes SendBatch fail with nothing applied: the series of
+// an earlier batch (grouped and ungrouped) are all still there, unchanged.
+func VH_C16_invalid() {
+	m := NewMetricStorage(context.Background(), "p_", true, log.NewNop())
+	vhRec, vhRecOn = nil, true
+	common := map[string]string{"hook": "hookA"}
+	one, two := 1.0, 2.0
+	first := []operation.MetricOperation{
+		{Name: "m1", Group: "g1", Action: "set", Value: &one, Labels: map[string]string{"l": "a"}},
+		{Name: "m2", Action: "add", Value: &one, Labels: map[string]string{"l": "a"}},
+	}
+	zz.Assert(m.SendBatch(first, common) == nil, "valid_batch_is_applied")
+	before := vhDumpAll(m)
+	recBefore := len(vhRec)
+
+	n := zz.Len("nops", 1, zz.Param("maxops", 3))
+	bad := zz.Len("invalid_position", 0, n-1)
+	batch := make([]operation.MetricOperation, n)
+	for i := 0; i < n; i++ {
+		// valid operations that would change the registry if they were applied
+		batch[i] = operation.MetricOperation{Name: "m1", Group: "g1", Action: "set", Value: &two, Labels: map[string]string{"l": "b" + strconv.Itoa(i)}}
+		if zz.Bool("ungrouped" + strconv.Itoa(i)) {
+			batch[i] = operation.MetricOperation{Name: "m2", Action: "add", Value: &two, Labels: map[string]string{"l": "a"}}
+		}
+	}
+	op := batch[bad]
+	switch zz.Len("invalid_kind", 0, 8) {
+	case 0:
+		op.Value = nil // 'value' is required for set/add/observe
+	case 1:
+		op.Action = "bogus"
+	case 2: // observe is not supported for grouped metrics
+		op.Group, op.Action, op.Buckets = "g1", "observe", []float64{1, 5}
+	case 3: // expire needs a group
+		op.Group, op.Action = "", "expire"
+	case 4: // a name is required when the action is not expire
+		op.Name = ""
+	case 5: // observe needs buckets
+		op.Group, op.Action, op.Buckets = "", "observe", nil
+	case 6:
+		op.Action = ""
+	case 7: // set and add exclude each other
+		op.Set, op.Add = &one, &one
+	case 8: // an ungrouped operation needs a name
+		op.Group, op.Name, op.Action = "", "", "set"
+	}
+	batch[bad] = op
+	err := m.SendBatch(batch, common)
+	zz.Assert(err != nil, "invalid_operation_fails_the_batch")
+	zz.Assert(len(vhRec) == recBefore, "invalid_batch_applies_nothing")
+	after := vhDumpAll(m)
+	zz.Assert(len(after) == len(before), "invalid_batch_leaves_series_untouched")
+	for i := 0; i < len(before) && i < len(after); i++ {
+		found := false
+		for j := range after {
+			if after[j].Name == before[i].Name && after[j].Value == before[i].Value && len(after[j].LabelValues) == len(before[i].LabelValues) {
+				same := true
+				for k := range after[j].LabelValues {
+					if after[j].LabelValues[k] != before[i].LabelValues[k] {
+						same = false
+					}
+				}
+				if same {
+					found = true
+				}
+			}
+		}
+		zz.Assert(found, "invalid_batch_leaves_series_untouched")
+	}
+	vhRecOn = false
+	zz.Reach("end")
+}
